@@ -36,6 +36,12 @@ theorem Triple.keepDisk' {α : Type} {f : M α} (h : ∀ d, Triple (CD d) f (fun
   · obtain ⟨hc', hd'⟩ := this.2 e s' hf
     exact ⟨hc', by rw [hd']; exact hF⟩
 
+/-- nothing is visible below a path at which nothing is visible -/
+theorem merge_none_below (d : Disk) (hr : d.RootsOK) (p : Path) (h : specStat d p = none) (q : List Name) :
+    merge d (q ++ p) = .none := by
+  rw [merge_eq_specStat d hr, specStat_none_below d p h q]
+  rfl
+
 /-- what a creating operation leaves at the path `q` (leaf first) -/
 def Created (isMkdir : Bool) (X : Node) (q : Path) (d : Disk) : Prop :=
   (∃ X', specStat d q = some X' ∧ X'.view = X.view) ∧ (isMkdir = true → ∀ c, specStat d (c :: q) = none)
